@@ -28,7 +28,7 @@ BOUNDSCHECK_TIERS = ("thorough",)
 
 
 def REQUIRED(tier):
-    return [f"t:{t}" for t in TRANSFORMS] + ["outputs_parsed", "outputs_compared", "spy:cwrite_calls", "regime:multi_block", "regime:subrange", "regime:multi_file_input", "regime:reader_with_history", "regime:single_read_over_64MiB", "regime:default_range_arguments", "regime:output_name_held_a_longer_file", "mask:nothing_flagged", "mask:non_finite_samples_in_masked_channels", "regime:trailing_zero_blocks", "regime:subband_over_257_channels_per_band:compared", "zerodm:channel_with_zero_mean_nonzero_samples"]
+    return [f"t:{t}" for t in TRANSFORMS] + ["outputs_parsed", "outputs_compared", "spy:cwrite_calls", "regime:multi_block", "regime:subrange", "regime:multi_file_input", "regime:reader_with_history", "regime:single_read_over_64MiB", "regime:default_range_arguments", "regime:output_name_held_a_longer_file", "mask:nothing_flagged", "mask:non_finite_samples_in_masked_channels", "regime:trailing_zero_blocks", "regime:subband_over_257_channels_per_band:compared", "zerodm:channel_with_zero_mean_nonzero_samples", "regime:integer_group_means_in_non_power_of_two_groups"]
 
 
 def cases(tier, seed):
@@ -38,6 +38,10 @@ def cases(tier, seed):
     # products whose last blocks are all zero (blanked tail of a recording), and a wide band summed into one or two sub-bands
     for i, (t, sp) in enumerate((("apply_channel_mask", "zero_tail"), ("extract_samps", "zero_tail"), ("apply_channel_mask", "all_zero"), ("downsample", "zero_tail"), ("invert_freq", "zero_tail"))):
         yield {"t": t, "nbits": 8, "N": 3072, "nchans": 16, "split": [3072], "start": 0, "nsamps": 3072, "gulp": 512, "special": sp, "pseed": int(seed) * 100003 + 999900 + 20 * i}
+    # decimation groups whose mean is an exact integer although no row of the group has an integer mean, with group widths that are not powers of two
+    for i, (tf, ff, nch) in enumerate(((4, 3, 12), (3, 6, 12), (5, 3, 6), (4, 5, 20))):
+        yield {"t": "downsample", "nbits": 8, "N": 60 * tf * 10, "nchans": nch, "split": [60 * tf * 10], "start": 0, "nsamps": 60 * tf * 10, "gulp": 64 * tf, "special": "integer_group_means", "tf": tf, "ff": ff,
+               "pseed": int(seed) * 100003 + 999700 + 20 * i}
     for i, nsub in enumerate((1, 2)):
         yield {"t": "subband", "nbits": 8, "N": 96, "nchans": 1024, "split": [96], "start": 0, "nsamps": 96, "gulp": 40, "special": "bright_wide", "nsub": nsub, "pseed": int(seed) * 100003 + 999800 + 20 * i}
     rng = np.random.default_rng([seed, 707])
@@ -135,6 +139,18 @@ def _input(ctx, case):
         ctx.count("regime:trailing_zero_blocks")
     if case.get("special") == "bright_wide":
         X = rng.integers(150, 256, size=X.shape).astype(X.dtype)
+    if case.get("special") == "integer_group_means":
+        tf, ff, nch = case["tf"], case["ff"], case["nchans"]
+        lev = rng.integers(3, 250, size=(case["N"] // tf, 1, nch // ff, 1))
+        dev = np.zeros((case["N"] // tf, tf, nch // ff, ff), dtype=np.int64)
+        # +1 on one sample of a row, -1 on one sample of another row of the same group (repeated): the group sum stays tf*ff*level
+        for _ in range(2):
+            ra = rng.integers(0, tf, size=dev.shape[0]); rb = (ra + 1 + rng.integers(0, tf - 1, size=dev.shape[0])) % tf
+            g = rng.integers(0, nch // ff, size=dev.shape[0]); ca = rng.integers(0, ff, size=dev.shape[0]); cb = rng.integers(0, ff, size=dev.shape[0])
+            i0 = np.arange(dev.shape[0])
+            dev[i0, ra, g, ca] += 1; dev[i0, rb, g, cb] -= 1
+        X = (lev + dev).reshape(case["N"], nch).astype(X.dtype)
+        ctx.count("regime:integer_group_means_in_non_power_of_two_groups")
     d = os.path.join(ctx.tmp, f"i{ctx.evaluations}")
     os.makedirs(d, exist_ok=True)
     paths = sigfile.write_split(d, X, case["nbits"], case["split"], fch1=1500.0, foff=-10.0 if case["nchans"] <= 64 else -0.25, tsamp=1e-3)
@@ -292,10 +308,13 @@ def run_case(case, ctx):
         elif t == "downsample":
             per_byte = max(1, 8 // nbits)
             ff_opts = [f for f in (1, 2, 4, 8) if nch % f == 0 and (nch // f) % per_byte == 0]
+            ff_opts += [f for f in (3, 5, 6) if nch % f == 0 and (nch // f) % per_byte == 0 and nch > f]
             ff = int(rng.choice(ff_opts))
             tf = int(rng.choice([1, 2, 3, 4, 5, 8]))
             if tf == 1 and ff == 1:
                 tf = 2
+            if case.get("special") == "integer_group_means":
+                tf, ff = case["tf"], case["ff"]
             fil.downsample(tf, ff, out, **rkw)
             n_out = nsamps // tf
             want = seg[: n_out * tf].reshape(n_out, tf, nch // ff, ff).mean(axis=(1, 3))
